@@ -6,7 +6,7 @@ import json
 import base, common, genrun, tlc, tokens, render
 from base import main_loop
 
-SCALARS = ["Int", "Float", "String", "Boolean", "ID"]
+SCALARS = ["Int", "Float", "String", "Boolean", "ID", "Date", "Time", "DateTime"]
 SDL = "type Query {\n" + "\n".join("  out%s: %s\n  in%s(a: %s): String" % (s, s, s, s) for s in SCALARS) + "\n}\n"
 FAIL = "FAIL"
 
@@ -125,7 +125,7 @@ def main(argv):
     rep.rule = ("cases = (scalar, direction out/in/literal, value token, concrete representative) executed through the engine and on the scalar "
                 "object; distinct_nontrivial = distinct cells x representatives other than the canonical in-kind value")
     rep.assumptions = ["numeric magnitudes are abstract token classes with finitely many concrete representatives (harness/tokens.py)",
-                       "Date/Time/DateTime are not covered by this table (well-formed values only; see DESIGN)", "stand-in parser"]
+                       "Date / Time / DateTime: two well-formed representatives each (whole seconds), malformed inputs refused", "stand-in parser"]
     results = genrun.run_jobs("checks.c10", "job", [{"cfg": "MC_scalars.cfg"}])
     bad = genrun.merge(rep, results)
     rc = rep.finish()
